@@ -1096,8 +1096,8 @@ B('C13', 'introduction makes one assume line per distinct antecedent', 'logic/ta
   "        ptAs = [ProofTerm.assume(A) for A in As]", "        ptAs = [ProofTerm.assume(A) for A in dict.fromkeys(As)]", 'C13.A13', 'one-assume-per-antecedent')
 B('C16', 'bounds that meet taken for a contradiction', 'prover/omega.py',
   "        if u < l:\n            if em in (DARK, EDARK):", "        if u <= l:\n            if em in (DARK, EDARK):", 'C16.O9', 'contradiction-by')
-B('C17', 'class list of the first representative extended whatever the direction of the union', CONGC,
-  "                    a, b = b, a\n                    rep_a, rep_b = rep_b, rep_a\n", "                    a, b = b, a\n                    rep_a, rep_b = rep_b, rep_a\n                    self.class_list[rep_a] += self.class_list[rep_b]\n", 'C17.G9', 'class-list-takes-over')
+B('C17', 'class lists joined the other way round', CONGC,
+  "                self.class_list[rep_b] += self.class_list[rep_a]", "                self.class_list[rep_a] += self.class_list[rep_b]", 'C17.G9', 'class-list-takes-over')
 B('C14', 'forward step closes the goal by the new fact', 'server/method.py',
   "            state.set_line(id, 'apply_theorem', args=data['theorem'], prevs=prevs)\n\n        id2 = id.incr_id(1)\n        new_id = state.find_goal(state.get_proof_item(id2).th, id2)\n        if new_id is not None:\n            state.replace_id(id2, new_id)",
   "            state.set_line(id, 'apply_theorem', args=data['theorem'], prevs=prevs)\n\n        id2 = id.incr_id(1)\n        new_id = state.find_goal(state.get_proof_item(id2).th, id2)\n        if new_id is not None:\n            state.replace_id(id2, id)", 'C14.S9', 'redirect')
